@@ -1231,10 +1231,49 @@ def _is_fresh(v: ast.AST) -> bool:
         (isinstance(v, ast.Call) and norm(v.func) in _OWN_CTORS)
 
 
+def _library_owned(p, g: FuncInfo, e: ast.AST, modules, depth: int) -> bool:
+    """*e* (evaluated in *g*) is an object the library made or keeps for itself: a fresh literal / copy, None, a private attribute
+    of a library object (``self._scheduled_sends``, ``root._system`` - nothing rooted at ``self.machine``, the definition), the
+    result of a private method all of whose returns are such objects, or a local / parameter that only ever holds one."""
+    if depth < 0:
+        return False
+    if e is None or (isinstance(e, ast.Constant) and e.value is None) or _is_fresh(e):
+        return True
+    if isinstance(e, ast.Attribute):
+        t = norm(e)
+        return e.attr.startswith("_") and not e.attr.startswith("__") and ".machine" not in t and not t.startswith("machine")
+    if isinstance(e, ast.Call) and isinstance(e.func, ast.Attribute) and e.func.attr.startswith("_") and not e.func.attr.startswith("__"):
+        targets = [h for h in p.funcs_in(*modules) if h.name == e.func.attr and h.cls is not None]
+        if not targets:
+            return False
+        for h in targets:
+            rets = [r for r in own_nodes(h.node) if isinstance(r, ast.Return) and r.value is not None]
+            if not rets or not all(_library_owned(p, h, r.value, modules, depth - 1) for r in rets):
+                return False
+        return True
+    if isinstance(e, ast.Name):
+        outer = g
+        while outer is not None and e.id not in outer.params and not any(
+                isinstance(a, (ast.Assign, ast.AnnAssign)) and isinstance((a.targets[0] if isinstance(a, ast.Assign) else a.target), ast.Name)
+                and (a.targets[0] if isinstance(a, ast.Assign) else a.target).id == e.id for a in own_nodes(outer.node)):
+            outer = outer.parent          # a closure variable of the enclosing function
+        if outer is None:
+            return False
+        defs = [a for a in own_nodes(outer.node) if isinstance(a, (ast.Assign, ast.AnnAssign)) and
+                isinstance((a.targets[0] if isinstance(a, ast.Assign) else a.target), ast.Name) and (a.targets[0] if isinstance(a, ast.Assign) else a.target).id == e.id]
+        if defs:
+            return all(a.value is not None and _library_owned(p, outer, a.value, modules, depth - 1) for a in defs)
+        loops = [l for l in own_nodes(outer.node) if isinstance(l, (ast.For, ast.AsyncFor)) and any(isinstance(t, ast.Name) and t.id == e.id for t in ast.walk(l.target))]
+        if loops:
+            return False
+        return e.id in outer.params and param_is_library_scratch(p, outer, e.id, modules, depth - 1)
+    return False
+
+
 def param_is_library_scratch(p, f: FuncInfo, param: str, modules, depth: int = 3) -> bool:
-    """A parameter of a *private* function that only ever receives an object the library created itself (a memo table, an
-    accumulator): every call site in the engine passes a fresh local (``cache = {}``), nothing (a ``None`` default) or its own
-    parameter of the same kind.  Such an object is not the caller's data, whatever the function does with it."""
+    """A parameter of a *private* function that only ever receives an object the library created or keeps for itself (a memo
+    table, an accumulator, its own registry): see _library_owned for what every call site in the engine may pass.  Such an
+    object is not the caller's data, whatever the function does with it."""
     if depth < 0 or not f.name.startswith("_") or f.name.startswith("__"):
         return False
     names = [a for a in f.params]
@@ -1255,28 +1294,8 @@ def param_is_library_scratch(p, f: FuncInfo, param: str, modules, depth: int = 3
                 arg = k.value
         if any(isinstance(a, ast.Starred) for a in x.args) or any(k.arg is None for k in x.keywords):
             return False
-        if arg is None or (isinstance(arg, ast.Constant) and arg.value is None):
-            continue
-        if _is_fresh(arg):
-            continue
-        if not isinstance(arg, ast.Name):
+        if not _library_owned(p, g, arg, modules, depth):
             return False
-        outer = g
-        while outer is not None and arg.id not in outer.params and not any(
-                isinstance(a, (ast.Assign, ast.AnnAssign)) and isinstance((a.targets[0] if isinstance(a, ast.Assign) else a.target), ast.Name)
-                and (a.targets[0] if isinstance(a, ast.Assign) else a.target).id == arg.id for a in own_nodes(outer.node)):
-            outer = outer.parent          # a closure variable of the enclosing function
-        if outer is None:
-            return False
-        defs = [a for a in own_nodes(outer.node) if isinstance(a, (ast.Assign, ast.AnnAssign)) and
-                isinstance((a.targets[0] if isinstance(a, ast.Assign) else a.target), ast.Name) and (a.targets[0] if isinstance(a, ast.Assign) else a.target).id == arg.id]
-        if defs:
-            if not all(a.value is not None and _is_fresh(a.value) for a in defs):
-                return False
-            continue
-        if arg.id in outer.params and param_is_library_scratch(p, outer, arg.id, modules, depth - 1):
-            continue
-        return False
     return True
 
 
